@@ -16,6 +16,7 @@ Record check := mkCheck {
 Inductive cop :=
 | OItem (c : lcfg)
 | ONote (endnote : bool) (text : N)
+| ORestart (numid : option nat)            (* RestartNumbering with an id that is a number, or with any other string *)
 | ORemove (endnote : bool) (id : nat) (ok : bool)
 | OHeading (level : Z) (text : N)           (* AddHeadingParagraph *)
 | OStyled (style : string) (text : N)       (* AddParagraph + SetStyle *)
@@ -64,6 +65,10 @@ Definition cstep (m : mstate) (o : cop) : option mstate :=
                Some (mkM n' (m_items m ++ [it]) (m_fn m) (m_en m) (add_para (m_t m) 0 1%N))
   | ONote e t => Some (if e then mkM (m_n m) (m_items m) (m_fn m) (add_note (m_en m) t) (add_para (m_t m) 0 1%N)
                        else mkM (m_n m) (m_items m) (add_note (m_fn m) t) (m_en m) (add_para (m_t m) 0 1%N))
+  | ORestart id =>
+      (* an argument that is not a number names no instance *)
+      let n' := match id with Some i => restart (m_n m) i | None => restart (m_n m) 0 end in
+      Some (mkM n' (m_items m) (m_fn m) (m_en m) (m_t m))
   | ORemove e id ok =>
       let '(s', ok') := remove_note (if e then m_en m else m_fn m) id in
       if Bool.eqb ok ok' then Some (if e then mkM (m_n m) (m_items m) (m_fn m) s' (m_t m) else mkM (m_n m) (m_items m) s' (m_en m) (m_t m))
